@@ -3,11 +3,38 @@
 package drv
 
 import (
+	"os"
 	"syscall"
 	"unsafe"
 
+	mocker "github.com/tencent/goom"
 	"github.com/tencent/goom/arg"
 )
+
+// baseLogging puts goom's logging into the configuration under test (VERIF_LOG = "", "debug",
+// "trace"; "env" = GOOM_DEBUG was set before the process started and nothing is touched).
+func baseLogging() {
+	switch os.Getenv("VERIF_LOG") {
+	case "debug":
+		mocker.CloseTrace()
+		mocker.OpenDebug()
+	case "trace":
+		mocker.OpenTrace()
+	case "env":
+	default:
+		mocker.CloseTrace()
+	}
+}
+
+// quiet sends the process's stdout to /dev/null (goom's console logging is voluminous).
+func quiet() {
+	if os.Getenv("VERIF_QUIET") == "" {
+		return
+	}
+	if f, err := os.OpenFile("/dev/null", os.O_WRONLY, 0); err == nil {
+		syscall.Dup2(int(f.Fd()), 1)
+	}
+}
 
 func anyExpr() interface{} { return arg.Any() }
 
